@@ -340,3 +340,10 @@ PROPS["C14"]["claim"] += (" WHOLE-LOAD INVARIANT (Lemmas/LoadInv, at_most_one_pr
 PROPS["C06"]["claim"] += (" GRAPH HYPOTHESES DISCHARGED (loaded_graph_meets_hypotheses, Lemmas/LoadSched): GraphOK and DepsOK, the hypotheses "
     "of the scheduler theorems, hold of the graph every invocation schedules on — load::read's result for any file system and log, including "
     "the names interned while attaching the log; the monitor graphHyps still evaluates them on every real graph dump.")
+
+PROPS["C12"]["claim"] += (" WHOLE LOADER (load_total, Lemmas/LoadTotal): for every file system content and manifest name, load::read up to "
+    "opening the log returns a loader (with consistent graph cross references) or one of the user diagnostics — parse error, duplicate output, "
+    "empty path, unreadable file, include nesting, unknown rule, invalid deps, unpaired rspfile; the model's internal outcomes (canonicalisation "
+    "panic, unknown file id in add_build, unterminated scanner buffer, out-of-bounds read, statement/parser loop out of fuel) are unreachable. "
+    "Proof: the parser totality theorem per round + strict progress of every non-EOF item as the statement loop's measure, the graph invariant "
+    "for id ranges, canon_spec for paths, induction on nesting depth.")
